@@ -147,8 +147,44 @@ def deep_text(lang, shape, d):
 DEEP_SHAPES = ["parens", "open-parens", "blocks", "functions", "open-functions", "header-groups"]
 
 
+def corpus_files(lang):
+    import pathlib
+
+    d = pathlib.Path(__file__).resolve().parent.parent.parent / "corpus" / canon.EXT[lang]
+    return sorted(p.name for p in d.glob("*"))
+
+
+_CORPUS_TEXT = {}
+
+
+def corpus_text(lang, name):
+    import pathlib
+
+    key = (lang, name)
+    if key not in _CORPUS_TEXT:
+        d = pathlib.Path(__file__).resolve().parent.parent.parent / "corpus" / canon.EXT[lang]
+        _CORPUS_TEXT[key] = (d / name).read_text(encoding="utf-8")
+    return _CORPUS_TEXT[key]
+
+
 def text_of(desc):
     fam, lang = desc["fam"], desc["lang"]
+    if fam == "wild":
+        from mc.gen import wild
+
+        return wild.WILD[lang][desc["name"]]
+    if fam == "wdamage":
+        from mc.gen import wild
+
+        return apply_damage(wild.WILD[lang][desc["name"]], desc["op"], desc["at"])
+    if fam == "corpus":
+        text = corpus_text(lang, desc["name"])
+        if "op" not in desc:
+            return text
+        lines = text.split("\n")
+        if desc["op"] == "linecut":
+            return "\n".join(lines[: desc["at"]]) + "\n"
+        return "\n".join(lines[: desc["at"]] + lines[desc["at"] + 1:])
     if fam == "soup":
         return soup_text(lang, desc["lex"], desc.get("alphabet"))
     if fam == "seed":
@@ -172,3 +208,27 @@ def soups_of_block(block):
     lang, n, first, a = block
     for rest in itertools.product(range(len(a)), repeat=n - 1):
         yield {"fam": "soup", "lang": lang, "lex": [first] + list(rest), **({"alphabet": a} if a != ALPHABET[lang] else {})}
+
+
+def wild_descs(lang, stride=1):
+    from mc.gen import wild
+
+    out = []
+    for name, text in wild.snippets(lang):
+        out.append({"fam": "wild", "lang": lang, "name": name})
+        for op, at in damage_ops(text):
+            if op in ("prefix", "suffix") and at % stride:
+                continue
+            out.append({"fam": "wdamage", "lang": lang, "name": name, "op": op, "at": at})
+    return out
+
+
+def corpus_descs(lang, nfiles, stride=1):
+    out = []
+    for name in corpus_files(lang)[:nfiles]:
+        out.append({"fam": "corpus", "lang": lang, "name": name})
+        n = corpus_text(lang, name).count("\n")
+        for at in range(1, n, stride):
+            out.append({"fam": "corpus", "lang": lang, "name": name, "op": "linecut", "at": at})
+            out.append({"fam": "corpus", "lang": lang, "name": name, "op": "linedel", "at": at})
+    return out
